@@ -1,6 +1,6 @@
 use crate::wal::block::{Block, Metadata};
 use crate::wal::config::{
-    DEFAULT_BLOCK_SIZE, FsyncSchedule, MAX_FILE_SIZE, PREFIX_META_SIZE, debug_print,
+    DEFAULT_BLOCK_SIZE, FsyncSchedule, MAX_ALLOC, MAX_FILE_SIZE, PREFIX_META_SIZE, debug_print,
 };
 use crate::wal::paths::WalPathManager;
 use crate::wal::storage::{SharedMmapKeeper, set_fsync_schedule};
@@ -321,11 +321,21 @@ impl Walrus {
                 };
                 let col_name = md.owned_by;
 
+                // A block whose first entry is larger than one unit was allocated as several
+                // contiguous units (see BlockAllocator::alloc_block); the scan has to treat them
+                // as one block instead of probing payload bytes as block headers.
+                let first_need = (PREFIX_META_SIZE as u64).saturating_add(md.read_size as u64);
+                let block_limit = if first_need > DEFAULT_BLOCK_SIZE && first_need <= MAX_ALLOC {
+                    ((first_need + DEFAULT_BLOCK_SIZE - 1) / DEFAULT_BLOCK_SIZE) * DEFAULT_BLOCK_SIZE
+                } else {
+                    DEFAULT_BLOCK_SIZE
+                };
+
                 // scan entries to compute used
                 let block_stub = Block {
                     id: next_block_id as u64,
                     offset: block_offset,
-                    limit: DEFAULT_BLOCK_SIZE,
+                    limit: block_limit,
                     used: 0,
                     file_path: file_path.clone(),
                     mmap: mmap.clone(),
@@ -337,7 +347,7 @@ impl Walrus {
                             used += consumed as u64;
                             in_block_off += consumed as u64;
                             entries_in_block = entries_in_block.saturating_add(1);
-                            if in_block_off >= DEFAULT_BLOCK_SIZE {
+                            if in_block_off >= block_limit {
                                 break;
                             }
                         }
@@ -351,7 +361,7 @@ impl Walrus {
                 let block = Block {
                     id: next_block_id as u64,
                     offset: block_offset,
-                    limit: DEFAULT_BLOCK_SIZE,
+                    limit: block_limit,
                     used,
                     file_path: file_path.clone(),
                     mmap: mmap.clone(),
@@ -374,7 +384,7 @@ impl Walrus {
                     );
                 }
                 next_block_id += 1;
-                block_offset += DEFAULT_BLOCK_SIZE;
+                block_offset += block_limit;
             }
         }
 
